@@ -8,7 +8,7 @@ from ..common import all_conds, conds_at, mro_methods, nshow, outer_field, paths
 from ..expr import C, SELF, canon, first_diff, norm, show, strip_epochs, walk
 from ..model import AnalysisError
 from ..own import BINF, TABLE, is_bucket
-from .C03 import CTXS, cpaths, insert_flows
+from .C03 import CTXS, bin_drops, cpaths, insert_flows
 from .C09 import add_alt_shape, sub_counter_once
 
 EXPL = ("Per mutator path: storage is mutated if and only if the counter is updated exactly once, and the counter delta agrees with "
@@ -249,7 +249,7 @@ def check(prog, rep, tier):
             if p.exit[0] != "return":
                 continue
             tot = [delta_of(e, "_inserted_elements") for e in counter_events(p, "_inserted_elements")]
-            rem = [e for e in p.events if e.kind == "call" and e.target is None and e.name == "remove" and e.recv is not None and is_bucket(e.recv) is not None]
+            rem = bin_drops(p)
             dec = [e for e in p.events if e.kind == "call" and e.name == "decrement"]
             uniq = [delta_of(e, "_CountingCuckooFilter__unique_elements") for e in counter_events(p, "_CountingCuckooFilter__unique_elements")]
             changed = bool(dec) if counting else bool(rem)
